@@ -4165,6 +4165,9 @@ class FlowIR(object):
         def convert(value, expected_type, label):
             if isinstance(value, string_types + (int, bool,)):
                 try:
+                    if isinstance(value, bool) and expected_type in (int, float, optional_int):
+                        # VV: bool is a subclass of int, but True/False are not numbers as far as FlowIR is concerned
+                        raise ValueError("Boolean value for numeric field %s" % label)
                     value = expected_type(value)
                 except:
                     if ignore_convert_errors:
